@@ -30,6 +30,7 @@ ORACLES = {
     "history": O.HistoryOracle,
     "transfer": O.TransferOracle,
     "split": O.SplitOracle,
+    "evo": O.EvoOracle,
 }
 
 
@@ -715,5 +716,270 @@ def run_C18(ctx):
     return res
 
 
-register("C19", run_C19, rule="(n, wells) pairs: n in {0,1,len-1,len,len+1,k*len,random,negative,non-int}; wells as list, 1-D and 2-D arrays of length 1..26")
-register("C18", run_C18, rule="triple lists of length 0..40 with repeated wells and equal keys, rows A..Z, columns 1..99, both modes and invalid modes; all 4x6 optimize_partition_by combinations")
+register("C19", run_C19, module="Robotools.Props.C19",
+         theorems=["Robotools.C19." + t for t in ("rejects_empty", "length_eq", "get_mod", "zero", "arr_colmajor")], rule="(n, wells) pairs: n in {0,1,len-1,len,len+1,k*len,random,negative,non-int}; wells as list, 1-D and 2-D arrays of length 1..26")
+register("C18", run_C18, module="Robotools.Props.C18",
+         theorems=["Robotools.C18." + t for t in ("perm", "single_column", "groups_nonempty", "groups_sorted", "group_keys_complete",
+                                                  "rows_sorted", "auto_rule", "explicit_respected", "invalid_mode_rejected")], rule="triple lists of length 0..40 with repeated wells and equal keys, rows A..Z, columns 1..99, both modes and invalid modes; all 4x6 optimize_partition_by combinations")
+
+
+# ------------------------------------------------------------------ C10 tip masks
+def run_C10(ctx):
+    import itertools
+    from robotools.worklists.utils import prepare_aspirate_dispense_parameters as prep
+    res = Result()
+    rng = ctx.rng
+    syms = [("int", n) for n in range(1, 9)] + [("member", 2 ** k) for k in range(8)]
+    tip_no = lambda s: s[1] if s[0] == "int" else int(math.log2(s[1])) + 1
+    args = []
+    for s in syms:
+        args.append(("single", s))
+    args.append(("single", ("member", -1)))
+    for bad in (("int", 0), ("int", 9), ("int", -1), ("bad", 1.5), ("bad", "1"), ("bad", None)):
+        args.append(("single", bad))
+    # all 255 subsets, three orders / representations each
+    for mask in range(1, 256):
+        tips = [k + 1 for k in range(8) if mask >> k & 1]
+        for _ in range(3):
+            l = [rng.choice([("int", t), ("member", 2 ** (t - 1))]) for t in tips]
+            l += [rng.choice(l) for _ in range(rng.choice([0, 0, 1, 3]))]
+            rng.shuffle(l)
+            args.append(("many", l))
+    args.append(("many", []))
+    seqs = list(itertools.product(syms, repeat=3)) + list(itertools.product(syms, repeat=2))
+    if ctx.tier != "thorough":
+        seqs = rng.sample(seqs, 400)
+    else:
+        res.exhaustive = True
+    args += [("many", list(s)) for s in seqs]
+    for _ in range(ctx.n(60)):
+        l = [rng.choice(syms) for _ in range(rng.randint(1, 4))]
+        l.insert(rng.randrange(len(l) + 1), rng.choice([("int", 0), ("int", 9), ("member", -1), ("bad", 2.0), ("bad", "x")]))
+        args.append(("many", l))
+    cases = []
+    for a in args:
+        def call(a=a):
+            out = prep("L", 1, 10.0, "", impl.tiparg(a), "", "", "", "")[4]
+            return "ok ~" if out == "" else f"ok {int(out)}"
+        ans = guarded(call)
+        elems = [a[1]] if a[0] == "single" else a[1]
+        valid = all(e[0] in ("int", "member") and (1 <= e[1] <= 8 if e[0] == "int" else e[1] in [2 ** k for k in range(8)]) for e in elems)
+        if a == ("single", ("member", -1)):
+            want = "ok ~"
+        elif valid:
+            m = 0
+            for e in elems:
+                m |= 1 << (tip_no(e) - 1)
+            want = f"ok {m}"
+        else:
+            want = "err:valueErr"
+        msg = None if ans == want else f"tip={impl.tiparg(a)!r}: emitted {ans}, expected {want}"
+        cases.append({"line": "tipmask " + proto.e_tiparg(a), "impl": ans, "case": {"kind": "fn", "fn": "tipmask", "tip": a},
+                      "oracle": msg, "sig": "C10:tipmask", "nontrivial": a[0] == "many"})
+    fn_stream(ctx, res, "tipmask", cases)
+    # EVO script commands and record pairs
+    progs = [gen_evo_program(rng, p_fail=0.25) for _ in range(ctx.n(60))]
+    stateful(ctx, res, "evo", progs, ["evo"])
+    progs = [G.gen_worklist_program(rng, {"kinds": ["transfer"], "nops": (1, 2), "p_fail": 0.0}) for _ in range(ctx.n(40))]
+    stateful(ctx, res, "transfer-pairs", progs, ["transfer"])
+    return res
+
+
+register("C10", run_C10, module="Robotools.Props.C10",
+         theorems=["Robotools.C10." + t for t in ("mask_single", "mask_member", "mask_any", "mask_rejects_int", "mask_rejects_bad", "mask_list",
+                                                  "mask_set_ext", "mask_list_rejects", "evo_mask_or", "slot_i_is_tip_i", "fillSlots_length",
+                                                  "fillSlots_volumes")],
+         genok=["gen_tipTable_ok", "gen_tipEnum_ok", "gen_tipSlots_ok", "gen_tipAggregation_ok"],
+         rule="all single symbols, all 255 subsets x 3 orders/representations with duplicates, sequences of length <=3 over the 16 tip symbols (sampled in quick, exhaustive in thorough), invalid members; EVO commands and transfer pairs")
+
+
+# ------------------------------------------------------------------ C12 selection strings
+def run_C12(ctx):
+    import itertools
+    from robotools.evotools.commands import evo_get_selection, evo_make_selection_array
+    res = Result()
+    rng = ctx.rng
+    sels = []
+    limit = 10 if ctx.tier == "quick" else 14
+    for R in range(1, 27):
+        for C in range(1, 49):
+            n = R * C
+            wells = [(r, c) for c in range(C) for r in range(R)]
+            if n <= limit:
+                for mask in range(1 << n):
+                    sels.append((R, C, [wells[k] for k in range(n) if mask >> k & 1]))
+            else:
+                if ctx.tier == "thorough" or rng.random() < 0.12:
+                    sels.append((R, C, list(wells)))
+                    sels.append((R, C, []))
+                    for w in (wells if (ctx.tier == "thorough" and n <= 96) else rng.sample(wells, min(3, n))):
+                        sels.append((R, C, [w]))
+                for _ in range(1 if ctx.tier == "quick" else 3):
+                    if rng.random() < (0.15 if ctx.tier == "quick" else 1.0):
+                        k = rng.randint(1, min(n, 12))
+                        sels.append((R, C, rng.sample(wells, k)))
+    res.exhaustive = True
+    res.extra["exhaustive_scope"] = f"all subsets of every geometry with at most {limit} wells"
+    cases = []
+    for R, C, sel in sels:
+        ids = [G.wid(r, c) for r, c in sel]
+        def call(R=R, C=C, ids=ids):
+            return "ok " + proto.e_str(evo_get_selection(R, C, evo_make_selection_array(R, C, ids)))
+        ans = guarded(call)
+        msg = None
+        if ans.startswith("ok"):
+            s = proto.d_str(ans[3:])
+            try:
+                rows, cols, got = O.decode_selection(s)
+                if (rows, cols) != (R, C) or sorted(got) != sorted(set(sel)):
+                    msg = f"{R}x{C} selection {ids[:8]} encodes to {s!r}, which decodes to {rows}x{cols} {sorted(got)[:8]}"
+            except (ValueError, IndexError) as e:
+                msg = f"{R}x{C} selection {ids[:8]} encodes to {s!r}: {e}"
+        else:
+            msg = f"{R}x{C} selection {ids[:8]} raised {ans}"
+        cases.append({"line": f"selection {R} {C} {','.join(proto.e_str(i) for i in ids) or '_'}", "impl": ans,
+                      "case": {"kind": "fn", "fn": "selection", "rows": R, "cols": C, "wells": ids}, "oracle": msg, "sig": "C12:selection",
+                      "nontrivial": len(sel) > 0})
+    fn_stream(ctx, res, "selection", cases)
+    # the model's decoder on the implementation's strings
+    sample = [c for c in cases if c["impl"].startswith("ok")]
+    sample = rng.sample(sample, min(len(sample), ctx.n(300)))
+    dcases = []
+    for c in sample:
+        s = proto.d_str(c["impl"][3:])
+        R, C, ids = c["case"]["rows"], c["case"]["cols"], c["case"]["wells"]
+        bits = ["0"] * (R * C)
+        for w in ids:
+            r, cc = "ABCDEFGHIJKLMNOPQRSTUVWXYZ".index(w[0]), int(w[1:]) - 1
+            bits[cc * R + r] = "1"
+        dcases.append({"line": "decode_selection " + proto.e_str(s), "impl": f"ok {R} {C} " + "".join(bits),
+                       "case": {"kind": "fn", "fn": "decode_selection", "string": s}, "oracle": None})
+    fn_stream(ctx, res, "decode_selection", dcases)
+    return res
+
+
+register("C12", run_C12, module="Robotools.Props.C12",
+         theorems=["Robotools.C12." + t for t in ("decode_encode", "encode_inj", "encode_length", "padding_zero", "selectionBits_spec",
+                                                  "selectionBits_length")],
+         genok=["gen_selBits_ok", "gen_selOffset_ok", "gen_hexDigits_ok", "gen_selectionHeader_ok"],
+         rule="rows 1..26 x cols 1..48: all subsets of geometries with <=10 (quick) / <=14 (thorough) wells, full/empty/single-well selections, random subsets")
+
+
+# ------------------------------------------------------------------ C08 numbering
+def run_C08(ctx):
+    import warnings
+    from robotools.evotools.utils import get_well_position as evo_pos
+    from robotools.fluenttools.utils import get_well_position as fluent_pos
+    from robotools import make_well_array, make_well_index_dict
+    res = Result()
+    rng = ctx.rng
+    geoms = [("plate", R, C) for R in range(1, 27) for C in list(range(1, 31)) + [99, 100, 120]]
+    geoms += [("trough", V, C) for V in range(1, 27) for C in range(1, 25)]
+    full = geoms if ctx.tier == "thorough" else rng.sample(geoms, 60)
+    res.exhaustive = ctx.tier == "thorough"
+    tcases, pcases, acases = [], [], []
+    e = proto.e_str
+    for kind, R, C in geoms:
+        if kind == "plate":
+            L = impl.Labware("L", R, C, min_volume=0, max_volume=10)
+            gtok = f"{R} {C} ~"
+        else:
+            L = impl.Trough("L", R, C, min_volume=0, max_volume=10)
+            gtok = f"1 {C} {R}"
+        with warnings.catch_warnings():
+            warnings.simplefilter("ignore")
+            positions = L.positions
+        ans = ("ok wells=" + ",".join(e(str(w)) for w in L.wells.flatten())
+               + " indices=" + ",".join(f"{e(k)}:{a}:{b}" for k, (a, b) in L.indices.items())
+               + " positions=" + ",".join(f"{e(k)}:{p}" for k, p in positions.items()))
+        # oracle: closed formulas, mutual consistency, bijection
+        msg = None
+        ids = [G.wid(r, c) for r in range(R) for c in range(C)]
+        if [str(w) for w in L.wells.flatten()] != ids:
+            msg = "wells array is not the row-major ID grid"
+        seen = set()
+        for r in range(R):
+            for c in range(C):
+                w = G.wid(r, c)
+                want_idx = (r, c) if kind == "plate" else (0, c)
+                if tuple(L.indices.get(w, ())) != want_idx:
+                    msg = f"indices[{w}] = {L.indices.get(w)}"
+                if positions.get(w) != 1 + c * R + r:
+                    msg = f"positions[{w}] = {positions.get(w)}"
+                seen.add(positions.get(w))
+        if seen != set(range(1, R * C + 1)) or len(L.indices) != R * C:
+            msg = msg or "positions are not a bijection onto 1..R*C"
+        if L.volumes.shape != ((R, C) if kind == "plate" else (1, C)):
+            msg = "volume array shape"
+        if msg:
+            msg = f"{kind} {R}x{C}: {msg}"
+        tcases.append({"line": "tables " + gtok, "impl": ans, "case": {"kind": "fn", "fn": "tables", "geom": [kind, R, C]}, "oracle": msg,
+                       "sig": "C08:tables"})
+        if (kind, R, C) in full:
+            wells = ids
+        else:
+            wells = rng.sample(ids, min(len(ids), 4))
+        bad = ["A1", "A001", "a01", "AA01", "Z99", "A00", "01A", "", "A", "7", "A-1", "B02 ", G.wid(min(R, 25), 0), G.wid(0, C)]
+        for w in wells + rng.sample(bad, 4 if (kind, R, C) not in full else len(bad)):
+            for dev, f in (("evo", evo_pos), ("fluent", fluent_pos)):
+                a = guarded(lambda: f"ok {f(L, w)}")
+                m2 = None
+                if w in L.indices:
+                    r, c = "ABCDEFGHIJKLMNOPQRSTUVWXYZ".index(w[0]), int(w[1:]) - 1
+                    want = 1 + c if (dev == "fluent" and kind == "trough") else 1 + c * R + r
+                    if a != f"ok {want}":
+                        m2 = f"{dev} position of {w} in {kind} {R}x{C} = {a}, expected {want}"
+                pcases.append({"line": f"{dev}_pos {gtok} {e(w)}", "impl": a,
+                               "case": {"kind": "fn", "fn": dev + "_pos", "geom": [kind, R, C], "well": w}, "oracle": m2, "sig": f"C08:{dev}_pos"})
+    for R in list(range(1, 27)) + [30, 40]:
+        for C in ([1, 2, 12, 24, 99, 100] if ctx.tier == "quick" else list(range(1, 31)) + [99, 100, 120]):
+            a1 = "ok " + ",".join(e(str(w)) for w in make_well_array(R, C).flatten())
+            a2 = "ok " + ",".join(f"{e(k)}:{a}:{b}" for k, (a, b) in make_well_index_dict(R, C).items())
+            m1 = None
+            RR = min(R, 26)
+            if a1 != "ok " + ",".join(e(G.wid(r, c)) for r in range(RR) for c in range(C)):
+                m1 = f"make_well_array({R}, {C}) is not the ID grid"
+            acases.append({"line": f"well_array {R} {C}", "impl": a1, "case": {"kind": "fn", "fn": "make_well_array", "R": R, "C": C}, "oracle": m1, "sig": "C08:make_well_array"})
+            acases.append({"line": f"well_index_dict {R} {C}", "impl": a2, "case": {"kind": "fn", "fn": "make_well_index_dict", "R": R, "C": C}, "oracle": None})
+    cmp_err = lambda a, b: a == b or (a.startswith("err") and b.startswith("err"))
+    fn_stream(ctx, res, "tables", tcases)
+    fn_stream(ctx, res, "positions", pcases, cmp_err)
+    fn_stream(ctx, res, "well_array_helpers", acases)
+    # operations naming an unknown well raise without emitting a record
+    progs = []
+    for _ in range(ctx.n(60)):
+        b = G.Builder(rng, {})
+        li = rng.randrange(len(b.labs))
+        L = b.labs[li]
+        w = rng.choice(["A1", "Z99", "AA01", "a01", G.wid(min(L.n_rows, 25), 0), G.wid(0, L.n_columns), "A001"])
+        if w in L.indices:
+            continue
+        k = rng.choice(["aspirate", "dispense", "transfer", "distribute"])
+        if k in ("aspirate", "dispense"):
+            op = {"op": k, "lab": li, "wells": ("V", [w]), "vols": ("S", F(1)), "kw": {}}
+        elif k == "transfer":
+            op = {"op": "transfer", "src": li, "dst": li, "src_wells": ("S", w), "dst_wells": ("S", str(L.wells[0, 0])), "vols": ("S", F(1)), "kw": {}}
+        else:
+            troughs = [i for i, X in enumerate(b.labs) if X.is_trough]
+            if not troughs:
+                continue
+            op = {"op": "distribute", "src": troughs[0], "src_col": 0, "dst": li, "dst_wells": ("V", [w]), "vol": F(0)}
+        b.push(op)
+        p = b.program()
+        p["unknown_well"] = True
+        progs.append(p)
+    runs = stateful(ctx, res, "unknown-well", progs, [])
+    for p, r in zip(progs, runs):
+        ob = r.obs[-1]
+        if ob["err"] is None or [x for x in ob["state"]["recs"] if x[:2] in ("A;", "D;", "R;")]:
+            case = {"kind": "stateful", "stream": "unknown-well", "prog": p, "oracles": [], "stop_on_error": True, "strict_value": False}
+            res.viol.append(Finding("unknown-well", case, f"operation naming an unknown well: outcome {ob['err']}, records {ob['state']['recs']}", "C08:unknown-well"))
+    return res
+
+
+register("C08", run_C08, module="Robotools.Props.C08",
+         theorems=["Robotools.C08." + t for t in ("wellId_inj", "parseLoose_wellId", "evoPos_plate", "fluentPos_plate", "evoPos_trough",
+                   "fluentPos_trough", "resolve_plate", "resolve_trough", "resolve_some", "evoWellOf_evoPos_plate", "evoWellOf_evoPos_trough",
+                   "fluentWellOf_fluentPos_trough", "pos_range", "pos_inj", "pos_surj", "positions_eq_evoPos", "makeWellArray_eq_wells",
+                   "makeWellIndexDict_eq_table", "unknown_id_no_index")], rule="all plate geometries 1..26 x (1..30, 99, 100, 120) and trough geometries 1..26 x 1..24: tables of every geometry, positions of all wells of 60 sampled geometries (quick) / all (thorough), malformed IDs, helpers, unknown-well operations",
+         genok=["gen_rowLettersLabware_ok", "gen_rowLettersTransform_ok", "gen_wellIdFormats_ok"])
